@@ -3,7 +3,7 @@
 cd /verif
 for p in "$@"; do
   s=$(date +%s)
-  out=$(timeout 5400 ./bin/gosmt -prop $p -tier thorough -no-evidence -workers 12 2>&1 | grep -v "^\[" | tail -6 | cut -c1-400)
+  out=$(timeout 3000 ./bin/gosmt -prop $p -tier thorough -no-evidence -workers 12 2>&1 | grep -v "^\[" | tail -6 | cut -c1-400)
   rc=$?
   e=$(date +%s)
   echo "=== $p thorough wall=$((e-s))s"
